@@ -8,7 +8,7 @@
    iter_index t it = number of items before position it (= distance from begin).
    All statements hold for every 1 <= maxCapacity <= 255, every capacityStep, blockCount, search strategy. *)
 From Coq Require Import ZArith List.
-From C02 Require Import BTreeModel BTreeParams BTreeBase SplitSeg IndexTable BTreeSearch BTreeIter BTreeAdd BTreeRemove BTreeCtx BTreeRemove2 BTreeTrack BTreeRemove3 BTreeRange BTreeTop BTreeHist BTreeRemoveTop BTreeRangeTop BTreeHist2 BTreeMerge BTreeFast BTreeFast2 BTreeInsRange BTreeHist3 NodeOps NodeScript BTreeDecide BTreeSplitGen GenPrimsC02 Gen_TreeFacts BTreeFastDecide BTreeSearchGen ProtoSyntaxC02 Gen_TreeProto ProtoSemC02 ProtoProofsC02 ProtoIterC02 ProtoMoveC02 ProtoIncrC02 ProtoDecrC02.
+From C02 Require Import BTreeModel BTreeParams BTreeBase SplitSeg IndexTable BTreeSearch BTreeIter BTreeAdd BTreeRemove BTreeCtx BTreeRemove2 BTreeTrack BTreeRemove3 BTreeRange BTreeTop BTreeHist BTreeRemoveTop BTreeRangeTop BTreeHist2 BTreeMerge BTreeFast BTreeFast2 BTreeInsRange BTreeHist3 NodeOps NodeScript BTreeDecide BTreeSplitGen GenPrimsC02 Gen_TreeFacts BTreeFastDecide BTreeSearchGen ProtoSyntaxC02 Gen_TreeProto ProtoSemC02 ProtoProofsC02 ProtoIterC02 ProtoMoveC02 ProtoIncrC02 ProtoDecrC02 ProtoBeginC02.
 From Coq Require String.
 From MomoCommon Require Import GenPrelude.
 Import ListNotations.
@@ -798,6 +798,31 @@ Theorem C02_iterator_decrement_is_generated :
     end.
 Proof. exact decr_is_prev. Qed.
 Print Assumptions C02_iterator_decrement_is_generated.
+
+(* final round: TreeSet::GetBegin.  Its dumped statement tree, interpreted on ANY well-formed tree: everything before the return leaves
+   `node` at the leftmost leaf; the return statement is `pvMakeIterator(node, 0, true)` (shape facts below), i.e. the iterator (node, 0)
+   on which the constructor runs pvMoveIf - and running the dumped pvMoveIf / pvMove on it ends at the hand model's begin_iter, the
+   position every traversal theorem starts from.  (The reading "pvMakeIterator(n, i, true) = pvMoveIf on (n, i)" is tied to the source by
+   the shape facts about pvMakeIterator's body and the constructor's body, not by the interpreter.) *)
+Theorem C02_begin_is_generated :
+  forall (maxCap : nat) (r : node) (d : nat) (e : env) (k : nat),
+    shape maxCap d r -> e k_mRootNode = Some (VPtr (Some [])) ->
+    let b := begin_iter {| root := Some r; cnt := 0 |} in
+    exists e' e'', ProtoSemC02.exec false (fun _ : Z => false) r no_calls (6 + (d + k)) e begin_prefix = RNormal e' /\
+      e' k_node = Some (VPtr (Some (leftmost d r))) /\
+      run_moveif_f r (13 + (k + d)) (env_of_iter (leftmost d r, 0%nat)) = Some e'' /\
+      e'' k_mNode = Some (VPtr (Some (fst b))) /\ e'' k_mItemIndex = Some (VNum (Z.of_nat (snd b))).
+Proof. exact begin_is_generated. Qed.
+Print Assumptions C02_begin_is_generated.
+
+(* shape facts read off the regenerated statement trees (closed by computation): what GetBegin returns, what pvMakeIterator builds, and
+   that the iterator constructor runs pvMoveIf exactly when `move` *)
+Theorem C02_begin_and_make_iterator_shape_facts :
+  last GetBegin_body SBreak = SReturn (ECall ENone k_pvMakeIterator [EVar k_node; ENum 0; ENum 1]) /\
+  pvMakeIterator_body = [SReturn (ECtor k_ConstIteratorProxy [EUn k_star (EVar k_node); EVar k_itemIndex; ECall (EVar k_mCrew) k_GetVersion []; EVar k_move])] /\
+  iter_ctor_body = [SIf (EVar k_move) [SExpr (ECall ENone k_pvMoveIf [])] []].
+Proof. exact begin_shape_facts. Qed.
+Print Assumptions C02_begin_and_make_iterator_shape_facts.
 
 (* non-vacuity: a concrete reachable state (maxCapacity 2, ten insertions with duplicates) has height 2 *)
 Theorem C02_nonvacuous_example :
